@@ -154,6 +154,24 @@ def run(ctx):
         c.reads = toks
         c.meta["depth"] = 300
         cases.append(c)
+    # replies whose LAST packet is the one that crosses a power-of-two amount of output since the previous flush
+    # (4 KiB .. 64 KiB): whatever buffering threshold an implementation might use, the terminator must be flushed
+    coldef = len(frame(b"\x03def\x00\x00\x00\x01a\x00\x0c\x21\x00\x00\x04\x00\x00\x03\x00\x00\x00\x00\x00", 0))
+    base = 5 + coldef + 9            # column count, one definition, EOF
+    for T in (4096, 8192, 16384, 32768, 65536) if not ctx.quick() else (4096, 16384, 65536):
+        ns = [nr for nr in range(T // 6 - 12, T // 6 + 3) if T - 9 < base + 6 * nr <= T]
+        for nr in sorted(set(ns + [x + 1 for x in ns[-1:]] + [x - 1 for x in ns[:1]])):
+            i += 1
+            prog = " ".join(["q start 1 " + c1] + ["wr 1 i32:5 p"] * nr + ["fin"])
+            c = mk_case("c12_%d" % i, [("query", cmd_query(b"t")), ("ping", cmd_ping())], [prog])
+            stream = c.meta["stream"]
+            toks, j = [], 0
+            while j < len(stream):
+                ln = int.from_bytes(stream[j:j + 3], "little")
+                toks.append("d:" + hexspec(stream[j:j + 4 + ln])); j += 4 + ln
+            c.reads = toks
+            c.meta["depth"] = 400
+            cases.append(c)
     from .c01 import gen_fill
     for c in gen_fill(ctx):
         c.id = c.id.replace("c01_", "c12_"); c.meta["depth"] = 200
